@@ -96,6 +96,16 @@ def r17a(ctx, repo, cg):
             continue
         witness = " -> ".join(cg.path_to(seen, sorted(drawers)[0]))
         seeded_by_init = kind == "parallel_progress" and init is not None and bool(has_reseed(init))
+        if seeded_by_init:
+            # ... on every path through the initialiser: an early return in front of the reseed leaves the forked generator state in place
+            icfg = K.cfg(repo, init)
+            seed_ids = [i for r in has_reseed(init) for i in icfg.ids(enclosing_stmt(r))]
+            from ..core.cfg import EXIT as _EXIT
+
+            skip = icfg.find_path([ENTRY], [_EXIT], avoid_ids=seed_ids)
+            if skip is not None:
+                seeded_by_init = False
+                ctx.fail("R17a", init, enclosing_stmt(has_reseed(init)[0]), "the pool initialiser %s can return without reseeding (path %s): whenever that path is taken every forked worker keeps the parent's generator state, so samples run on different workers share their perturbations" % (init.qualname, icfg.describe_path(skip)), stmt_text="initialiser-reseed-on-every-path")
         seeded_in_task = False
         rs = has_reseed(task)
         if rs:
